@@ -32,8 +32,14 @@ package httputil
 
 // Send: every client.Do is reached with a sendable request (the obligations are Do's precondition
 // at each call site); success is reported only with a response.
+// Accepted status codes are never retried: the backoff is consulted (the only way to another
+// attempt) only after a network error or a status the caller did not accept. The clause is split in
+// two because the second half fails on the pinned tree (known finding): a code that is both
+// accepted and listed in RetryCodes is retried.
 //@ func Send
-//@   unknown_calls_modify opts.body, opts.httpFallbackDisabled
+//@   unknown_calls_modify opts.body, opts.httpFallbackDisabled, opts.acceptedCodes, opts.retry.extraCodes
 //@   modifies *
+//@   assert accepted_code_not_retried: at BackOff.NextBackOff#0 :: err != nil || !opts.acceptedCodes[resp.StatusCode] || opts.retry.extraCodes[resp.StatusCode]
+//@   assert accepted_code_not_retried_even_if_listed: at BackOff.NextBackOff#0 :: err != nil || !(opts.acceptedCodes[resp.StatusCode] && opts.retry.extraCodes[resp.StatusCode])
 //@   ensures result1 == nil ==> result0 != nil
 //@   loop 1 invariant attempt_is_complete: req != nil && req.URL != nil && sendable(req) && opts != nil && client != nil
